@@ -1828,7 +1828,11 @@ class Module(ABC):
 
                 # Recordings and clamps of states that no longer exist cannot be
                 # simulated. They are removed together with the channel.
-                removed_states = [c for c in unshared_cols if c in channel.channel_states]
+                removed_states = [
+                    s
+                    for s in channel.channel_states
+                    if not any(s in c.channel_states for c in others)
+                ]
                 if channel.current_name not in self.base.membrane_current_names:
                     removed_states.append(channel.current_name)
                 if len(self.base.recordings) > 0:
